@@ -56,6 +56,15 @@ TNextExit ==
   /\ l' = l + 1
   /\ UNCHANGED <<run, hb, viol, cnt>>
 
+\* size_hint of the wrapped iterator is an access of the cell like next()
+THintRead ==
+  /\ IsEvent("HintRead")
+  /\ LET h2 == HbAccess(hb, E.t) IN
+     /\ l' = l + 1 /\ hb' = h2
+     /\ viol' = viol \cup (IF h2.race THEN {<<run, "Race">>} ELSE {})
+                     \cup (IF inNext \ {E.t} # {} THEN {<<run, "Mutex">>} ELSE {})
+  /\ UNCHANGED <<run, inNext, cnt>>
+
 \* calls of the owner are program-ordered with the workers' whole lives (spawn / join)
 TCall ==
   /\ IsEvent("Call")
@@ -69,7 +78,7 @@ TOther ==
   /\ UNCHANGED <<run, hb, inNext, viol, cnt>>
 
 Init == /\ l = 1 /\ run = -1 /\ hb = HbInit(0, {}) /\ inNext = {} /\ viol = {} /\ cnt = <<0, 0, 0>>
-Next == TReset \/ TAtomic \/ TNextEnter \/ TNextExit \/ TCall \/ TOther
+Next == TReset \/ TAtomic \/ TNextEnter \/ TNextExit \/ THintRead \/ TCall \/ TOther
 Spec == Init /\ [][Next]_vars
 
 Publish == TLCSet(1, viol) /\ TLCSet(2, l) /\ TLCSet(3, cnt)
